@@ -146,6 +146,9 @@ func (p *polling) onDataRequest(ctx *types.HttpContext) {
 
 	if isBinary && p.Protocol() == 4 {
 		p.OnError("invalid content", nil)
+		// the request still needs its response, like the overlapping one above
+		ctx.SetStatusCode(http.StatusBadRequest)
+		ctx.Write(nil)
 		return
 	}
 
